@@ -541,6 +541,37 @@ func c18run(w *report.W) {
 			os.Remove(path)
 		}
 	}
+	// a valid key next to an entry the JOSE library cannot decode: the file is not a usable key set
+	{
+		_, priv, _ := ed25519.GenerateKey(rand.Reader)
+		good, _ := jwk.FromRaw(priv)
+		good.Set(jwk.KeyIDKey, "a")
+		good.Set(jwk.AlgorithmKey, jwa.EdDSA)
+		gb, _ := json.Marshal(good)
+		for i, bad := range []string{`{"kty":"RSA","e":"AQAB","kid":"b"}`, `{"kty":"OKP","crv":"Ed25519","kid":"b"}`, `{"kty":"martian","kid":"b"}`, `"not an object"`} {
+			for _, order := range []string{"good-first", "bad-first"} {
+				body := `{"keys":[` + string(gb) + `,` + bad + `]}`
+				if order == "bad-first" {
+					body = `{"keys":[` + bad + `,` + string(gb) + `]}`
+				}
+				cs := fmt.Sprintf("LoadKey file with an undecodable entry #%d (%s), no id requested", i, order)
+				if !w.Take(cs) {
+					continue
+				}
+				path := filepath.Join(dir, fmt.Sprintf("partly%d%s.json", i, order))
+				os.WriteFile(path, []byte(body), 0o600)
+				w.P.Evaluations++
+				var key jwk.Key
+				var lerr error
+				if pan := report.Catch(func() { key, lerr = jwkutil.LoadKey(path, "") }); pan != "" {
+					w.Violate(report.Violation{Kind: "panic", Case: cs, Detail: pan, Size: 2})
+				} else if lerr == nil {
+					w.Violate(report.Violation{Kind: "loadkey", Case: cs, Detail: fmt.Sprintf("no id was requested and the file lists two entries, yet a key (kid %q) was returned: %s", key.KeyID(), body), Size: 2})
+				}
+				os.Remove(path)
+			}
+		}
+	}
 	// missing / malformed files
 	for _, c := range []struct{ name, content string }{{"missing", ""}, {"garbage", "not json"}, {"emptyobj", "{}"}} {
 		cs := "LoadKey file=" + c.name
